@@ -265,6 +265,9 @@ class EquationParser(object):
         """
         for var, eqn in self.Endogenous:
             rhs = self.CleanupRightHandSide(eqn)
+            if var in self.InitialConditions:
+                # A variable with its own initial condition differs from its source at k=0; keep it.
+                continue
             if rhs in self.AllEquations:
                 # We have a case where VAR1 = VAR2.  Replace occurrences of VAR1 by VAR2 in all equations.
                 # BUT: Must break loops like:  (x=y), (y=x), since they will not converge
